@@ -13,7 +13,7 @@ def main(argv=None):
     run = report.Run("C11", "model_checking")
     env.load_pygom()
     quick = run.tier == "quick"
-    seeds = ["DRAIN", "CAPPED", "RANGE", "HYBRID", "CAPPEDBIG"] if quick else ["DRAIN", "CAPPED", "RANGE", "HYBRID", "CAPPEDBIG", "BD", "SIR", "ONE"]
+    seeds = ["DRAIN", "CAPPED", "RANGE", "HYBRID", "CAPPEDBIG", "NONPOS"] if quick else ["DRAIN", "CAPPED", "RANGE", "HYBRID", "CAPPEDBIG", "NONPOS", "BD", "SIR", "ONE"]
     dbound = 1
     defs, ngen = fam.gather_defs(seeds, dbound)
     seed_defs, _ = fam.gather_defs(seeds, 0)
@@ -25,7 +25,7 @@ def main(argv=None):
     jobs = [(c, 2 if quick else 3, 20000 if quick else 200000, "c11") for c in extra]
     jobs += [(c, 1, 6000 if quick else 20000, "c11") for c in cfgs]
     if not quick:
-        qdefs, _ = fam.gather_defs(["DRAIN", "CAPPED", "RANGE", "HYBRID", "CAPPEDBIG"], 1)
+        qdefs, _ = fam.gather_defs(["DRAIN", "CAPPED", "RANGE", "HYBRID", "CAPPEDBIG", "NONPOS"], 1)
         c2 = fam.l2_configs(qdefs, "quick")
         jobs += [(c, 2, 60000, "c11") for c in c2]
         cfgs = cfgs + c2
